@@ -1,4 +1,5 @@
 import VaxisModel.Lemmas.VxfwErr
+import VaxisModel.Lemmas.VxfwHover
 
 /-!
 # C15 — handlers that return an error
@@ -107,5 +108,23 @@ example :
      (eHandleCommand ⟨⟨fun _ _ _ _ => .nil, fun _ => false⟩, fun _ ev _ _ => ev == .focusOut⟩ 4 (St.init 0)
       (.batch [.focus 1, .redraw])).trace) =
     (0, [.call 0 .focusOut .target, .eff .redraw]) := by decide
+
+/-- **Hover state when `Run` ends at a failing handler call — the full statement, NOT proved (round 4).**  For every behaviour
+with failing calls (returned errors AND the failures inside `focusWidget` that are only logged), every history of trees showing a
+widget at most once under a point: the MouseEnter / MouseLeave notifications delivered so far alternate per widget, and if no error
+was returned the entered widgets are exactly those of the hit list.  What IS proved about this situation:
+`error_ends_run_at_failing_call` (the failing call is the last thing that happened), `C15Body.mouse_update_body_error_keeps_hits`
+(a failing hover handler leaves `m.lastHits` as it was, so the widgets already told MouseLeave are still recorded as entered —
+the entered set is then a SUBSET of the recorded hit list, not equal to it), and `C15.hover_alternates` / `C15Body.hover_alternates_bodies`
+for histories without failing calls.  A proof needs the trace-extension lemmas of `Lemmas/Vxfw.lean` (`Ext`, `HQ`) and the two
+notification-loop inductions of `Lemmas/VxfwHover.lean` redone for the error-aware functions (`eHandleCommand`, `eNotifyLoop` with its
+early return); see notes/C15.md. -/
+def hover_after_error_full : Prop :=
+  ∀ (e : EOracle) (fuel : Nat) (root : Id) (t0 : STree) (steps : List Step),
+    HitsNodup t0 → (∀ st ∈ steps, StepOk st) →
+    (hoverRun [] (eRun e fuel root t0 steps).1.trace).isSome ∧
+    ((eRun e fuel root t0 steps).2 = false →
+      ∃ ent, hoverRun [] (eRun e fuel root t0 steps).1.trace = some ent ∧
+        ∀ w, w ∈ ent ↔ w ∈ (eRun e fuel root t0 steps).1.lastHits.map Hit.w)
 
 end VaxisModel.Props.C15Err
